@@ -692,8 +692,8 @@ Definition and_or_rules (is_and : bool) (l r : expr) (a : ann) (dflt : expr) : e
 Definition binop_rules (op : binop) (l r : expr) (a : ann) : option expr :=
   let dflt := EBin op l r a in
   match const_val l, const_val r with
-  | Some x, Some y =>      (* isinstance(lhs, Const) and isinstance(rhs, Const): Const(cfold, lhs.type, lhs.srcinfo) *)
-      match cfold op x y with Some v => Some (EConst v (ann_of l)) | None => None end
+  | Some x, Some y =>      (* isinstance(lhs, Const) and isinstance(rhs, Const): Const(cfold, e.type, lhs.srcinfo) *)
+      match cfold op x y with Some v => Some (EConst v (mkAnn (aty a) (asrc (ann_of l)))) | None => None end
   | _, _ =>
       match op with
       | OAdd =>
